@@ -304,6 +304,25 @@ def pool_size() -> int:
     return max(1, min(8, (os.cpu_count() or 2) // 2))
 
 
+_POOL = None
+
+
+def get_pool():
+    """One pool for the whole run: every worker builds its in-memory backend once."""
+    global _POOL
+    if _POOL is None:
+        _POOL = multiprocessing.get_context("fork").Pool(pool_size())
+    return _POOL
+
+
+def close_pool() -> None:
+    global _POOL
+    if _POOL is not None:
+        _POOL.terminate()
+        _POOL.join()
+        _POOL = None
+
+
 def replay_all(ctx: Ctx, behs: list, source: str, stats: dict) -> None:
     nproc = pool_size()
     size = max(25, -(-len(behs) // (nproc * 2)))
@@ -311,8 +330,7 @@ def replay_all(ctx: Ctx, behs: list, source: str, stats: dict) -> None:
     if len(chunks) <= 1 or nproc == 1:
         results = [_chunk(c) for c in chunks]
     else:
-        with multiprocessing.get_context("fork").Pool(nproc) as pool:
-            results = pool.map(_chunk, chunks, chunksize=1)
+        results = get_pool().map(_chunk, chunks, chunksize=1)
     k = 0
     for rs in results:
         for r in rs:
@@ -378,8 +396,7 @@ def gen_traces(ctx: Ctx, n: int, entities, keys, toks, kinds) -> list:
     if len(jobs) <= 1 or nproc == 1:
         parts = [_gen_chunk(j) for j in jobs]
     else:
-        with multiprocessing.get_context("fork").Pool(nproc) as pool:
-            parts = pool.map(_gen_chunk, jobs, chunksize=1)
+        parts = get_pool().map(_gen_chunk, jobs, chunksize=1)
     return [t for p in parts for t in p]
 
 
@@ -499,6 +516,13 @@ def cli_channel(ctx: Ctx, behs: list, stats: dict) -> None:
 
 
 def run(ctx: Ctx) -> None:
+    try:
+        _run(ctx)
+    finally:
+        close_pool()
+
+
+def _run(ctx: Ctx) -> None:
     ctx.assume("SQLite backend, one session, no concurrent writer",
                "values from a fixed set of JSON kinds (int, float, string, null, true, list, object)",
                "a failing command is followed by a fresh session (rollback), as a new CLI process would be")
@@ -692,3 +716,4 @@ def replay(ctx: Ctx, rec: dict) -> None:
             ctx.violation(f"replayed history rejected ({verdicts[1][0]}) at call {verdicts[1][1]}", {"trace": fresh})
     else:
         run(ctx)
+    close_pool()
